@@ -25,6 +25,8 @@ type guardEnv struct {
 	bind map[types.Object]constant.Value
 	// opaque sub-expressions (accessor calls such as v.Mandatory(), v.Limit().Min) bound by their printed form
 	opaque map[string]constant.Value
+	// locals introduced by `x := expr` inside the guard function: evaluated on use
+	locals map[types.Object]ast.Expr
 }
 
 func (g *guardEnv) val(e ast.Expr) constant.Value {
@@ -39,6 +41,9 @@ func (g *guardEnv) val(e ast.Expr) constant.Value {
 	case *ast.Ident:
 		if v, ok := g.bind[g.p.TypesInfo.Uses[x]]; ok {
 			return v
+		}
+		if rhs, ok := g.locals[g.p.TypesInfo.Uses[x]]; ok {
+			return g.val(rhs)
 		}
 	case *ast.CallExpr:
 		// integer conversion of a bound non-negative value
@@ -61,6 +66,10 @@ func (g *guardEnv) cond(e ast.Expr) bool {
 		return constant.BoolVal(v)
 	}
 	switch x := e.(type) {
+	case *ast.Ident:
+		if rhs, ok := g.locals[g.p.TypesInfo.Uses[x]]; ok {
+			return g.cond(rhs)
+		}
 	case *ast.BinaryExpr:
 		switch x.Op {
 		case token.LAND:
@@ -109,10 +118,19 @@ func (g *guardEnv) run(stmts []ast.Stmt) (guardOutcome, bool) {
 				}
 			}
 		case *ast.AssignStmt:
-			for _, l := range x.Lhs {
+			for i, l := range x.Lhs {
 				if id, ok := l.(*ast.Ident); ok {
 					if _, bound := g.bind[g.p.TypesInfo.Uses[id]]; bound {
 						panic(undecided{"guard function assigns to parameter " + id.Name})
+					}
+					// a named intermediate (`tooFew := …`): remember its definition
+					if x.Tok == token.DEFINE && len(x.Lhs) == len(x.Rhs) {
+						if g.locals == nil {
+							g.locals = map[types.Object]ast.Expr{}
+						}
+						if o := g.p.TypesInfo.Defs[id]; o != nil {
+							g.locals[o] = x.Rhs[i]
+						}
 					}
 				}
 			}
